@@ -889,7 +889,11 @@ class Dict(dict, base.Symbolic, pg_typing.CustomTyping):
         # NOTE(daiyip): The key values of frozen field can safely be excluded
         # since they will be the same for a class.
         field = self._value_spec.schema[key_spec]
-        if hide_frozen and field.frozen:
+        # NOTE: Only a const key comes back from the schema when the dict is
+        # loaded. Keys that match a non-const key (e.g. `StrKey`) must always
+        # be written, or they would be lost.
+        can_hide = not isinstance(key_spec, pg_typing.NonConstKey)
+        if hide_frozen and field.frozen and can_hide:
           continue
         for key in keys:
           if key not in exclude_keys:
@@ -898,7 +902,8 @@ class Dict(dict, base.Symbolic, pg_typing.CustomTyping):
               value = self.sym_inferred(key, default=value)
             if pg_typing.MISSING_VALUE == value:
               continue
-            if hide_default_values and base.eq(value, field.default_value):
+            if (hide_default_values and can_hide
+                and base.eq(value, field.default_value)):
               continue
             json_repr[key] = base.to_json(
                 value,
